@@ -235,6 +235,10 @@ def oracle(script: dict, run: Any) -> List[Violation]:
                 want_labels = dict(sp.get("labels") or {})
                 if sp.get("label"):
                     want_labels.update(sp.get("task_labels") or {})
+                if sp.get("created"):
+                    # kicker.schedule_by_* stores the *prepared* (string) form of the labels in the ScheduledTask: that is "the schedule's labels"
+                    from taskiq.labels import prepare_label
+                    want_labels = {n: ["str", prepare_label(_dec(v))[0]] for n, v in want_labels.items()}
                 got_labels = prim(msg["labels"])
                 if msg["task_name"] != sp["task"] or msg["args"] != want_args or msg["kwargs"] != want_kwargs or got_labels != prim(want_labels):
                     out.append(Violation("C16/wrong-payload", f"schedule {sid}: sent task={msg['task_name']} args={msg['args']} kwargs={msg['kwargs']} labels={got_labels}; "
@@ -272,7 +276,7 @@ def oracle(script: dict, run: Any) -> List[Violation]:
 def probes(script: dict, run: Any) -> Dict[str, int]:
     h = SHist(run)
     res = {"loop_mode": int(script["mode"] == "loop"), "label_mode": int(script["mode"] == "label"), "cancelled_firing": 0, "failed_send": int(bool(h.kind("kick_fail"))),
-           "async_source_hooks": 0, "label_payload_checked": 0, "oneshot_removed": 0, "equal_times": 0, "foreign_task": 0, "concurrent_firings": 0}
+           "async_source_hooks": 0, "label_payload_checked": 0, "oneshot_removed": 0, "equal_times": 0, "foreign_task": 0, "concurrent_firings": 0, "created_through_kicker": int(any(e[3] == "op_create" for e in run.events))}
     if script["mode"] == "loop":
         cancelled = {c for src in script["sources"] for c in src.get("cancel", [])}
         res["cancelled_firing"] = int(any(e[4]["id"] in cancelled for e in h.kind("pre_send")))
